@@ -10,7 +10,7 @@ Model: `Bch.Model.CoinSet` (`/repo/coinset/coins.go`). Vocabulary from `Bch.Proo
 * `SubMultiset s l` = `∃ p, p.Perm l ∧ s.Sublist p` — `s` uses every element of `l` at most as often as it occurs
   in `l` ("distinct coins taken from the offered list"); implies `count`-wise ≤, `⊆`, and `Nodup` if `l.Nodup`.
 
-`NewMsgTxWithInputCoins` is not part of this model (covered by the differential harness only).
+`NewMsgTxWithInputCoins` is `CS.txInputs` (the outpoints, in order; the remaining fields of the inputs are compared by the harness).
 -/
 namespace Bch.Props.C19
 open Bch Bch.Model.TxSort Bch.Model.CoinSet Bch.Proofs.TxSort Bch.Proofs.CoinSet
@@ -23,6 +23,15 @@ theorem C19_totals (ops : List Op) :
     (run {} ops).totalValue = ((run {} ops).coins.map Coin.value).sum ∧
     (run {} ops).totalValueAge = ((run {} ops).coins.map Coin.valueAge).sum :=
   run_inv {} ops inv_empty
+
+/-- **C19_tx_spends_contents.** After any history the transaction built from the set has exactly one input per coin
+    of the current contents, in the order of the contents (push appends, pop drops the last, shift the first — see
+    `C19_ops`), and so its inputs' values add up to the running total. -/
+theorem C19_tx_spends_contents (ops : List Op) :
+    (run {} ops).txInputs = (run {} ops).coins.map Coin.id ∧
+    (run {} ops).txInputs.length = (run {} ops).coins.length ∧
+    ((run {} ops).coins.map Coin.value).sum = (run {} ops).totalValue := by
+  refine ⟨rfl, by simp [CS.txInputs], (C19_totals ops).1.symm⟩
 
 /-- the invariant is inductive: it is preserved by every single operation from every state satisfying it -/
 theorem C19_totals_step (s : CS) (o : Op) (h : Inv s) : Inv (stepOp s o).1 := stepOp_inv s o h
